@@ -458,8 +458,9 @@ def run_tier(prop, tier, verif_seed, workers, runs=None, budget_s=None):
     # eventually be OOM-killed in the thorough tiers.
     chunk = int(getattr(mod, "CHUNK", 400))
     n_chunks = max(workers, -(-n // chunk))
-    shards = [list(range(s, n, n_chunks)) for s in range(n_chunks)]
-    shards = [sh for sh in shards if sh]
+    per = -(-n // n_chunks)
+    shards = [list(range(c * per, min(n, (c + 1) * per))) for c in range(n_chunks)]  # contiguous blocks: plan kinds that
+    shards = [sh for sh in shards if sh]                                            # recur with a period stay spread out
     min_budget = cfg.get("minimise_s", 60)
     args = [(prop, verif_seed, tier, sh, deadline, min_budget) for sh in shards]
     results = []
